@@ -36,4 +36,14 @@ MUTANTS = {
         ('remaining_clamped', [('librfn/pack.c', "	return pack->endp - pack->p;", "	return pack->endp > pack->p ? pack->endp - pack->p : 0;")]),
         ('u32le_unpack_byte3', [('librfn/pack.c', "p[2] << 16 | p[3] << 24;", "p[2] << 16 | (p[3] & 0x7f) << 24;")]),
     ],
+    'C10': [
+        ('claim_wrap_gt', [('librfn/messageq.c', "newsendp = (sendp >= (mq->queue_len-1) ? 0 : sendp+1);", "newsendp = (sendp > (mq->queue_len-1) ? 0 : sendp+1);")]),
+        ('recv_wrap_gt', [('librfn/messageq.c', "(receivep >= (unsigned int)(mq->queue_len - 1) ? 0 : receivep + 1);", "(receivep > (unsigned int)(mq->queue_len - 1) ? 0 : receivep + 1);")]),
+        ('claim_addr_newsendp', [('librfn/messageq.c', "	return mq->basep + (sendp * mq->msg_len);", "	return mq->basep + (newsendp * mq->msg_len);")]),
+        ('init_roundup', [('librfn/messageq.c', "	mq->queue_len = base_len / msg_len;\n	atomic_store(&mq->num_free, base_len / msg_len);", "	mq->queue_len = (base_len + msg_len - 1) / msg_len;\n	atomic_store(&mq->num_free, (base_len + msg_len - 1) / msg_len);")]),
+        ('static_init_swapped', [('include/librfn/messageq.h', "		ATOMIC_VAR_INIT(((base_len) / (msg_len))), \\\n		ATOMIC_VAR_INIT(0), \\", "		ATOMIC_VAR_INIT(0), \\\n		ATOMIC_VAR_INIT(((base_len) / (msg_len))), \\")]),
+        ('empty_uses_sendp', [('include/librfn/messageq.h', "(atomic_load(&mq->full_flags) & (1 << mq->receivep));", "(atomic_load(&mq->full_flags) & (1 << atomic_load(&mq->sendp)));")]),
+        ('recv_no_flag_check_32', [('librfn/messageq.c', "	if (0 == (full_flags & (1 << receivep)))", "	if (0 == (full_flags & (1 << (receivep & 15))))")]),
+        ('send_u8_offset', [('librfn/messageq.c', "	unsigned int offset = (((char *) msg) - mq->basep);", "	unsigned short offset = (((char *) msg) - mq->basep);")]),
+    ],
 }
